@@ -299,7 +299,8 @@ impl Execution {
                     let result = panic::catch_unwind(panic::AssertUnwindSafe(|| continuation.borrow_mut().resume()));
                     #[cfg(feature = "verif-hooks")]
                     let result: std::thread::Result<bool> = {
-                        let _ = &continuation;
+                        // leaked, not dropped: dropping the `Rc` would bring the coroutine's drop glue in
+                        std::mem::forget(continuation);
                         Ok(crate::verif_support::resume(ExecutionState::me().into()))
                     };
 
